@@ -164,7 +164,10 @@ def run(ctx):
                 if not good and f.name == PFX + 'taskpool_ready' and repr(val) == nbpa:
                     # plain load allowed only here, after NOT_READY->BUSY
                     pre = [e2 for e2, _ in before if cas_monitor(e2) and e2.args[1].cv == NOT_READY and e2.args[2].cv == BUSY]
-                    if pre:
+                    lds = [e2 for e2, _ in before if e2.kind == 'load' and e2.e.s == nbpa]
+                    # the value tested is the one read by the LAST load of the counter before the attempt:
+                    # that load must come after readiness was published (else a concurrent last decrement is missed)
+                    if pre and lds and pi.index(lds[-1]) > pi.index(pre[-1]) and len(lds) == 1:
                         good = True; why = 'load of nb_pending_actions after NOT_READY->BUSY (taskpool_ready)'
             rc.expect(good, '%s:unguarded-terminating' % f.name, ev.loc,
                       '%s attempts BUSY->TERMINATING without a zero test of the post-value of its own nb_pending_actions update (tests: %s)' % (
